@@ -34,6 +34,19 @@ Proof. unfold s2. assert (0 < sqrt 2) by (apply sqrt_lt_R0; lra). lra. Qed.
 Lemma s2_sq : s2 * s2 = 1 / 2.
 Proof. unfold s2. assert (H : sqrt 2 * sqrt 2 = 2) by (apply sqrt_sqrt; lra). nra. Qed.
 
+(** the valid region without the square root (decidable on dyadic constants by [lra]) *)
+Lemma ratios_ok_sufficient cr dr : 0 < cr < 1 -> 0 < dr < 1 -> cr * cr < 2 * (dr * dr) -> disk_ratios_ok cr dr.
+Proof.
+  intros H1 H2 H3. unfold disk_ratios_ok. repeat split; try lra.
+  assert (S : sqrt 2 * sqrt 2 = 2) by (apply sqrt_sqrt; lra).
+  assert (P : 0 < sqrt 2) by (apply sqrt_lt_R0; lra).
+  destruct (Rlt_le_dec cr (sqrt 2 * dr)) as [L|L]; [exact L|]. exfalso.
+  assert (0 < sqrt 2 * dr) by (apply Rmult_lt_0_compat; lra).
+  assert ((sqrt 2 * dr) * (sqrt 2 * dr) <= cr * cr) by (apply Rmult_le_compat; lra).
+  replace ((sqrt 2 * dr) * (sqrt 2 * dr)) with (sqrt 2 * sqrt 2 * (dr * dr)) in H0 by ring.
+  rewrite S in H0. lra.
+Qed.
+
 (** all 48 plane corners of the four-core disk are convex and counter-clockwise *)
 Lemma disk_cross2_pos cr dr : disk_ratios_ok cr dr ->
   forall q, In q four_core_quads -> forall k, (k < 4)%nat -> 0 < cross2 (disk_xy cr dr) q k.
